@@ -310,7 +310,8 @@ func (s *Scanner) addPos(p int) {
 func (s *Scanner) skipQuote(quote rune) error {
 	var (
 		pos     = s.pos
-		escaped = s.BackslashEscapes || s.EscapedStringExt && s.pos > 0 && (s.input[s.pos-1] == 'E' || s.input[s.pos-1] == 'e')
+		// Backslash escapes are not supported in quoted identifiers (e.g. `a\`).
+		escaped = s.BackslashEscapes && quote != '`' || s.EscapedStringExt && s.pos > 0 && (s.input[s.pos-1] == 'E' || s.input[s.pos-1] == 'e')
 	)
 	for {
 		switch r := s.next(); {
